@@ -34,7 +34,7 @@ run() { # name, expected exit status, expected substring of the replayed predica
 
 git -C /repo worktree add -q --detach "$W" HEAD || exit 2
 trap 'git -C /repo worktree remove --force "$W"; cd "$here" && ./check C17 >/dev/null 2>&1' EXIT
-want=${*:-fill layout one-parent override-dup include-type by-position one-sided schema-dup schema-reorder loop-index base}
+want=${*:-fill layout one-parent override-dup include-type by-position one-sided schema-dup schema-reorder loop-index diffs base}
 for m in $want; do
 case $m in
 fill)  # fillValueSlice: ignore defaults
@@ -89,6 +89,17 @@ loop-index)  # harmless: iterate attributes by index
 		posToName[ix] = attributes[ix].Name()
 	}''')"
   run "harmless rewrite: index loops" 0 '' ;;
+diffs)  # the recorded patches selftest/C17/*.diff (deep chains, type-level InitHash): every one must be reported
+  for d in "$here"/selftest/C17/*.diff; do
+    (cd "$W" && git apply "$d") || { echo "FAIL  $d does not apply"; rc=1; continue; }
+    case $(basename "$d" .diff) in
+      attr-inithash-drops-any-undef|type-inithash-drops-include-type) pat='reinit-differs' ;;
+      isassignable-two-levels) pat='subtype-not-instance' ;;
+      equality-attributes-one-level-up) pat='equality-wrong|equality-include-type' ;;
+      *) pat='' ;;
+    esac
+    run "mutant $(basename "$d" .diff)" 1 "$pat"
+  done ;;
 base)
   run "unchanged tree" 0 '' ;;
 esac
